@@ -23,3 +23,4 @@ def run(prog, rep):
     from ..rules import r_close as _rcr
     _rcr.run_release(prog, rep)
     _rcr.run(prog, rep)
+    _rk2.run_getattr(prog, rep)
